@@ -34,7 +34,8 @@ RULE = ('random histories (quick: length <= 40, thorough: <= 90) over 2-4 models
         'draws), set_random_state(None|int|RandomState), caller draws from its RandomState, np.random.seed, dataset '
         'generators; random prior global state. A case is one history; distinct by its op list; non-trivial when it '
         'contains >= 2 sample calls on a seeded model')
-PARTIAL = ['dataset_rows_partial: numpy size= semantics / pandas constructors not modelled; "exactly size rows" checked '
+PARTIAL = ['Props/C15b: the wrapper clause is proved iff the sampler is decorated (true for the repaired table, refuted for the as-found one), every history clause restated for all classes incl. the wrapper, and dataset_rows: every generator returns exactly `size` rows in the shape model Model/DatasetShape, tied every run by corr:dataset-shape (rows, columns, ordered numpy draw calls)',
+           'dataset_rows_partial: numpy size= semantics / pandas constructors not modelled; "exactly size rows" checked '
            'on the real code only',
            'univariate_wrapper_partial: for Univariate (as found) the clauses "function of the seed", "global untouched" '
            'and "own stream advances" are false (univariate_wrapper_counterexample); proved of the Repaired variant',
@@ -635,16 +636,89 @@ def shrink(hist, table, lean, kind, budget=60):
     return cur, [p for p in probs if p[0] == kind]
 
 
+# --------------------------------------------------------------------------------------- dataset shapes
+SHAPE_SIZES = (0, 1, 2, 7, 100)
+DRAW_KINDS = {'beta.rvs': 0, 'normal': 1, 'randint': 2, 'random': 3, 'exponential': 4}
+# position of `size` when given positionally
+NP_DRAW_FUNCS = {'normal': 2, 'randint': 2, 'random': 0, 'exponential': 1, 'uniform': 2, 'random_sample': 0, 'sample': 0,
+                 'ranf': 0, 'standard_normal': 0, 'standard_exponential': 0, 'rand': None, 'randn': None, 'beta': 2,
+                 'gamma': 2, 'choice': 1, 'binomial': 2, 'poisson': 1, 'lognormal': 2, 'standard_t': 1, 'permutation': None,
+                 'multivariate_normal': 2, 'triangular': 3, 'laplace': 2, 'logistic': 2, 'chisquare': 1}
+
+
+def real_dataset_shape(name, size):
+    """call the real generator with the draw functions of np.random (and stats.beta.rvs) wrapped:
+    -> ('ok', rows, cols, [(function, size argument), ...]) | ('err', kind)."""
+    from unittest import mock
+
+    from scipy import stats
+
+    from copulas import datasets
+    calls = []
+
+    def wrap(label, fn, pos):
+        def w(*a, **k):
+            sz = k['size'] if 'size' in k else (a[pos] if pos is not None and len(a) > pos else None)
+            calls.append((label, None if sz is None else (int(sz) if np.ndim(sz) == 0 else tuple(int(v) for v in sz))))
+            return fn(*a, **k)
+        return w
+    patches = [mock.patch.object(np.random, f, wrap(f, getattr(np.random, f), pos))
+               for f, pos in NP_DRAW_FUNCS.items() if hasattr(np.random, f)]
+    patches.append(mock.patch.object(stats.beta, 'rvs', wrap('beta.rvs', stats.beta.rvs, None)))
+    for pt in patches:
+        pt.start()
+    try:
+        out = getattr(datasets, 'sample_' + name)(size, 42)
+    except Exception as e:  # noqa
+        return ('err', vc.exc_kind(e))
+    finally:
+        for pt in reversed(patches):
+            pt.stop()
+    return ('ok', len(out), out.shape[1] if isinstance(out, pd.DataFrame) else 1, calls)
+
+
+def model_dataset_shape(lean, name, size):
+    r = lean.ask(f'rng shape {name} {size}').split()
+    if not r or r[0] != 'ok':
+        return ('bad', ' '.join(r))
+    d = dict(w.split('=', 1) for w in r[1:])
+    if d['rows'] == 'none':
+        return ('err', 'not-modelled')
+    draws = [] if d['draws'] == '-' else [(int(k), None if c == 's' else int(c))
+                                          for k, c in (w.split(':') for w in d['draws'].split(','))]
+    return ('ok', int(d['rows']), int(d['cols']), draws)
+
+
+def tie_dataset_shape(ctx, lean):
+    """corr:dataset-shape — Model/DatasetShape.lean (hand-written) against the real generators."""
+    bad = None
+    for name in ALL_GENERATORS:
+        for size in SHAPE_SIZES:
+            real = real_dataset_shape(name, size)
+            mod = model_dataset_shape(lean, name, size)
+            ctx.case(('shape', name, size))
+            ctx.count('shape:' + real[0])
+            if real[0] == 'ok':
+                real_c = ('ok', real[1], real[2], [(DRAW_KINDS.get(f, f), sz) for f, sz in real[3]])
+                ok = mod == real_c
+            else:
+                ok = mod[0] == 'err'
+            if not ok and bad is None:
+                bad = {'generator': 'sample_' + name, 'size': size, 'real': real, 'model': mod}
+    ctx.ob('corr:dataset-shape', bad is None, 'tie', bad or 'ok')
+
+
 # --------------------------------------------------------------------------------------- the tie
 def run(ctx, lean):
     zoo = get_zoo()
     table = decorator_table()
     names = ['corr:decorator-table', 'corr:history-shape', 'corr:history-equalities', 'corr:history-separations',
-             'corr:draws-from-global-legacy']
+             'corr:draws-from-global-legacy', 'corr:dataset-shape']
     if lean is None:
         for n in names:
             ctx.ob(n, False, 'tie', 'driver unavailable')
         return
+    tie_dataset_shape(ctx, lean)
     # 1. the generated table against the two tables the theorems speak about
     def parse_table(r):
         return {w.split('=')[0]: w.split('=')[1] == '1' for w in r.split()[1:]}
